@@ -117,6 +117,13 @@ inductive LnAns where
   | succ (refund : UInt64) | pending | failed | err | notfound
   deriving DecidableEq, Repr, Inhabited
 
+/-- Key of the mint server's NUT-19 response cache (method + URL + body): a byte-identical `/v1/swap` or
+    `/v1/mint/bolt11` request is answered with the response it was answered with before. -/
+inductive CacheReq where
+  | swap (ins : List WProof) (outs : List Out)
+  | mint (quote : Nat) (outs : List Out)
+  deriving DecidableEq, Repr
+
 structure MintView where
   keysets : List KsInfo := []
   sigs : List Sig := []
@@ -132,8 +139,11 @@ structure MintView where
   mintedIn : Nat := 0
   melted : Nat := 0
   swapFees : Nat := 0
-  /-- ghost: a request contained an output that was already signed (the mint refused it) -/
+  /-- ghost: a request contained an output that was already signed -/
   reuse : List SId := []
+  /-- NUT-19 cache of successful swap / mint responses (entries live 5 minutes in the real server; the
+      model never expires them — in fault-free histories no request is ever repeated) -/
+  cache : List (CacheReq × List Sig) := []
   deriving Repr, Inhabited
 
 /-! ## wallet storage -/
@@ -320,9 +330,17 @@ def reused (m : MintView) (outs : List Out) : List SId := (outs.filter (fun o =>
 
 def noteReuse (m : MintView) (outs : List Out) : MintView := { m with reuse := m.reuse ++ m.reused outs }
 
-/-- `Mint.Swap`. -/
+def cached (m : MintView) (k : CacheReq) : Option (List Sig) :=
+  match m.cache.find? (·.1 == k) with
+  | some e => some e.2
+  | none => none
+
+/-- `Mint.Swap` behind the server's cache. -/
 def swap (m : MintView) (ins : List WProof) (outs : List Out) : MintView × CRes (List Sig) :=
   let m := m.noteReuse outs
+  match m.cached (.swap ins outs) with
+  | some sigs => (m, .ok sigs)
+  | none =>
   match amountChecked (outs.map (·.amount)) with
   | none => (m, .error (.mint 10000))
   | some osum =>
@@ -341,7 +359,8 @@ def swap (m : MintView) (ins : List WProof) (outs : List Out) : MintView × CRes
            outs.any (fun o => ins.any (fun p => match p.lock with | some l => l.sigAll && o.osig != some l.owner | none => false))
         then (m, .error (.mint 30001)) else
         ({ m with spent := m.spent ++ ins.map (fun p => (p.secret, p.amount)), sigs := m.sigs ++ sigsOf outs,
-                  swapFees := m.swapFees + (isum - osum).toNat }, .ok (sigsOf outs))
+                  swapFees := m.swapFees + (isum - osum).toNat,
+                  cache := m.cache ++ [(.swap ins outs, sigsOf outs)] }, .ok (sigsOf outs))
 
 /-- `Mint.RequestMintQuote`. -/
 def mintQuote (m : MintView) (id : Nat) (amount : UInt64) : MintView × CRes MMintQ :=
@@ -358,9 +377,12 @@ def mintQuoteState (m : MintView) (id : Nat) : MintView × CRes MQState :=
 def setMintQ (m : MintView) (id : Nat) (s : MQState) : MintView :=
   { m with mintQ := m.mintQ.map (fun q => if q.id == id then { q with state := s } else q) }
 
-/-- `Mint.MintTokens`. -/
+/-- `Mint.MintTokens` behind the server's cache. -/
 def mint (m : MintView) (id : Nat) (outs : List Out) : MintView × CRes (List Sig) :=
   let m := m.noteReuse outs
+  match m.cached (.mint id outs) with
+  | some sigs => (m, .ok sigs)
+  | none =>
   match m.mintQ.find? (·.id == id) with
   | none => (m, .error (.mint 20009))
   | some q =>
@@ -375,7 +397,8 @@ def mint (m : MintView) (id : Nat) (outs : List Out) : MintView × CRes (List Si
         match m.verifyOutputs outs with
         | some c => (m, .error (.mint c))
         | none =>
-          ({ (m.setMintQ id .issued) with sigs := m.sigs ++ sigsOf outs, mintedIn := m.mintedIn + osum.toNat },
+          ({ (m.setMintQ id .issued) with sigs := m.sigs ++ sigsOf outs, mintedIn := m.mintedIn + osum.toNat,
+                                          cache := m.cache ++ [(.mint id outs, sigsOf outs)] },
            .ok (sigsOf outs))
 
 def feeReserve (m : MintView) (amount : UInt64) : UInt64 := if m.feePct then (amount + 99) / 100 else 0
